@@ -16,28 +16,30 @@ from latcfg import rat, frac
 KDEN, XDEN, ODEN = 16, 16, 2 ** 14
 
 
-def make_layer(tfl, c, units):
+def make_layer(tfl, c, units, dtype="float32"):
   n = len(c["mono"])
   lo = [float(frac(c["lo"][i])) if c["hasLo"][i] else None for i in range(n)]
   hi = [float(frac(c["hi"][i])) if c["hasHi"][i] else None for i in range(n)]
   layer = tfl.layers.Linear(num_input_dims=n, units=units, use_bias=c["useBias"],
                             input_min=lo if any(v is not None for v in lo) else None,
-                            input_max=hi if any(v is not None for v in hi) else None)
+                            input_max=hi if any(v is not None for v in hi) else None,
+                            **({} if dtype == "float32" else {"dtype": dtype}))
   layer.build((None, n) if units == 1 else (None, units, n))
   return layer
 
 
-def evaluate(tf, tfl, c, K, B, X):
+def evaluate(tf, tfl, c, K, B, X, dtype="float32"):
   """K: (n, units), B: (units,), X: (batch, n) -> (batch, units)."""
   units = K.shape[1]
-  layer = make_layer(tfl, c, units)
-  layer.kernel.assign(K.astype(np.float32))
+  ft = np.float32 if dtype == "float32" else np.float64
+  layer = make_layer(tfl, c, units, dtype)
+  layer.kernel.assign(K.astype(ft))
   if c["useBias"]:
-    layer.bias.assign(np.float32(B[0]) if units == 1 else B.astype(np.float32))
+    layer.bias.assign(ft(B[0]) if units == 1 else B.astype(ft))
   if units == 1:
-    return layer(tf.constant(X, dtype=tf.float32)).numpy().reshape(len(X), 1)
+    return layer(tf.constant(X.astype(ft))).numpy().reshape(len(X), 1)
   Xu = np.repeat(X[:, None, :], units, axis=1)
-  return layer(tf.constant(Xu, dtype=tf.float32)).numpy()
+  return layer(tf.constant(Xu.astype(ft))).numpy()
 
 
 def events_for(c, K, B, X, out, ctx, path):
@@ -107,8 +109,9 @@ def run(ctx):
         X[2, i] = float(2 ** 20 if j % 2 else 2 ** 26)
       if hasLo[i]:
         X[3, i] = -float(2 ** 20 if j % 2 else 2 ** 26)
-    out = evaluate(tf, tfl, c, K, B, X)
-    events += events_for(c, K, B, X, out, ctx, "random")
+    # every fourth layer computes in float64
+    out = evaluate(tf, tfl, c, K, B, X, dtype="float64" if j % 4 == 3 else "float32")
+    events += events_for(c, K, B, X, out, ctx, "random64" if j % 4 == 3 else "random")
     ctx.nontrivial.add((json.dumps(c, sort_keys=True)))
   ctx.validate("TraceLinearLayer", events)
   return ctx.finish()
@@ -125,7 +128,7 @@ def replay(ctx, path):
     K = np.array(call["k"], dtype=np.float32).reshape(-1, 1)
     B = np.array([call["b"]], dtype=np.float32)
     X = np.array([call["x"]], dtype=np.float32)
-    out = evaluate(tf, tfl, c, K, B, X)
+    out = evaluate(tf, tfl, c, K, B, X, dtype="float64" if call.get("path") == "random64" else "float32")
     log("replay cfg=%s k=%s b=%s x=%s -> %s" % (c, call["k"], call["b"], call["x"], out.tolist()))
     events += events_for(c, K, B, X, out, ctx, "replay")
   ctx.validate("TraceLinearLayer", events, shards=1)
